@@ -190,6 +190,9 @@ class Env:
             if self.fake:
                 grp.create_dataset('data', data=self.values(data, dtype),
                                    dtype=dtype, **kw)
+            elif np.dtype(dtype).kind in 'iu':
+                grp.create_dataset('data', data=np.array(
+                    [int(x) for x in data], dtype=dtype), **kw)
             else:
                 grp.create_dataset('data', data=np.array(
                     [float(x) for x in data], dtype=dtype), **kw)
@@ -233,4 +236,6 @@ def same_value(ctx, a, b):
         return core.same_term(a, b)
     if USE_SHIM_ARRAYS['on']:
         return a == b
+    if isinstance(a, (int, np.integer)) and isinstance(b, (int, np.integer)):
+        return int(a) == int(b)
     return np.float32(a) == np.float32(b) or a == b
